@@ -605,6 +605,11 @@ func PreprocessDeclarationsPrelude(baseURL string, declarations []pa.Compound, p
 			if err != nil {
 				return nil, err
 			}
+			if len(ownDecls) > 0 {
+				// declarations written before this nested rule come before it in the cascade
+				out = append(out, KeyedDeclarations{selectors, ownDecls})
+				ownDecls = nil
+			}
 			out = append(out, contents...)
 		}
 
@@ -686,7 +691,9 @@ func PreprocessDeclarationsPrelude(baseURL string, declarations []pa.Compound, p
 		}
 	}
 
-	out = append(out, KeyedDeclarations{selectors, ownDecls})
+	if len(ownDecls) > 0 || len(out) == 0 {
+		out = append(out, KeyedDeclarations{selectors, ownDecls})
+	}
 
 	return out, nil
 }
